@@ -784,6 +784,52 @@ def check_depth(ctx, case):
         sys.setrecursionlimit(old)
 
 
+# ----------------------------------------------------------------------
+# two changes of one Formula object with NO read in between (change_table twice, += twice): the Hill form read
+# afterwards is that of the formula as it is now.  (A memo validated by the identity of the structure tuple is fooled
+# when the tuple of the first change is freed and the second one is allocated at its address.)
+B2B_FORMULAS = DEPTH_FORMULAS + ["C3H8O2NS", "NaClKBrLiFCs", "Fe2O3(H2O)3SiO2", "(CH3)3COHNaCl", "H2SO4", "UO2F2NaCl",
+                                 "MgSiO3FeTiO3Al2O3CaO", "C6H12O6N2P2S2Cl", "AuAgCuPtPdRhIrOs"]
+
+
+def check_back_to_back(ctx, case):
+    E0 = env()
+    formula, pool = E0["formula"], E0["pool"]
+    if "second" not in E0["tables"]:
+        from periodictable import mass, density
+        from .. import subtable
+        T2 = subtable.new("c19-second")
+        mass.init(T2)
+        density.init(T2)
+        E0["tables"]["second"] = T2
+    text, how, rep = case["text"], case["how"], case["rep"]
+    ctx.case(("b2b", text, how, rep), nontrivial=True, sample=case, cls=["back-to-back:" + how])
+    for _ in range(rep):
+        f = formula(text)
+        model = dict((atom_key(a), Fraction(n)) for a, n in f.atoms.items())
+        f.hill, f.mass                                   # read: whatever is memoised, is memoised now
+        if how == "change_table":
+            f.change_table(E0["tables"]["private"])
+            f.change_table(E0["tables"]["second"])       # straight after, nothing read in between
+            E = on_table(E0, "second")
+            where = "%r moved to one private table and straight on to a second one" % text
+        else:
+            g = formula("Xe2Kr")
+            f += g
+            f += g
+            for a, n in g.atoms.items():
+                model[atom_key(a)] = model.get(atom_key(a), 0) + 2 * Fraction(n)
+            E = E0
+            where = "%r extended twice in place by Xe2Kr with no read in between" % text
+        check_hill(E, f, model, where, case, mass=False)
+
+
+def task_back_to_back(ctx):
+    for text in B2B_FORMULAS:
+        for how in ("change_table", "iadd"):
+            ctx.check(check_back_to_back, {"kind": "b2b", "text": text, "how": how, "rep": 40})
+
+
 def task_depth(ctx):
     for text in DEPTH_FORMULAS:
         for what in ("hill", "dict", "parse-hill"):
@@ -795,16 +841,19 @@ def tasks(tier):
         return ([("multisets-%d" % k, task_multisets, dict(n=330)) for k in range(8)] +
                 [("histories-%d" % k, task_histories, dict(n=200)) for k in range(3)] +
                 [("long-%d" % k, task_long, dict(n=60)) for k in range(2)] +
-                [("series", task_series, dict(n=150)), ("decimal", task_decimal, dict(n=150)), ("little-stack", task_depth, {})])
+                [("series", task_series, dict(n=150)), ("decimal", task_decimal, dict(n=150)), ("little-stack", task_depth, {}), ("back-to-back", task_back_to_back, {})])
     # coverage-guided tier (pbt/fuzz.py): libFuzzer drives the strategies and oracles of these tasks
     from .. import fuzz
     return fuzz.extend([("multisets-%d" % k, task_multisets, dict(n=10000)) for k in range(12)] +
                        [("histories-%d" % k, task_histories, dict(n=4000, steps=12 + 4 * k)) for k in range(4)] +
                        [("long-%d" % k, task_long, dict(n=1500)) for k in range(2)] +
-                       [("series", task_series, dict(n=4000)), ("decimal", task_decimal, dict(n=3000)), ("little-stack", task_depth, {})], PROPERTY, ['multisets-0'])
+                       [("series", task_series, dict(n=4000)), ("decimal", task_decimal, dict(n=3000)), ("little-stack", task_depth, {}),
+                        ("back-to-back", task_back_to_back, {})], PROPERTY, ['multisets-0'])
 
 
 def replay(ctx, case):
+    if case.get("kind") == "b2b":
+        return check_back_to_back(ctx, case)
     if case.get("kind") == "depth":
         return check_depth(ctx, case)
     if case.get("kind") == "decimal":
